@@ -108,4 +108,38 @@ def pinvmod (B : Field) (a f : List Nat) : List Nat :=
   | [c] => pmod B (pscale B (binv B c) t) f
   | _ => []
 
+
+/-- monic gcd-like remainder sequence: the last non-zero remainder of Euclid on `(a, b)` -/
+def pgcdAux (B : Field) : Nat → List Nat → List Nat → List Nat
+  | 0, a, _ => a
+  | fuel + 1, a, b => if (pnorm b).isEmpty then pnorm a else pgcdAux B fuel b (pmod B a b)
+
+def pgcd (B : Field) (a b : List Nat) : List Nat := pgcdAux B (a.length + b.length + 2) a b
+
+/-- `x^n mod f` by square-and-multiply -/
+def ppowmod (B : Field) (f x : List Nat) : Nat → Nat → List Nat
+  | 0, _ => [1 % B.q]
+  | fuel + 1, n =>
+    if n = 0 then [1 % B.q]
+    else
+      let h := ppowmod B f (pmod B (pmul B x x) f) fuel (n / 2)
+      if n % 2 = 1 then pmod B (pmul B x h) f else h
+
+/-- Ben-Or's irreducibility test over the base field with `q` elements, written from the definition, independent of the
+    library: `f` (degree `d ≥ 1`) is irreducible iff `gcd(X^(q^i) - X, f)` is constant for `i = 1 … ⌊d/2⌋`. -/
+def isIrreducible (B : Field) (f : List Nat) : Bool :=
+  let f := pnorm f
+  let d := f.length - 1
+  if d = 0 then false else
+  let x : List Nat := [0, 1 % B.q]
+  let rec go (fuel : Nat) (i : Nat) (xi : List Nat) : Bool :=
+    match fuel with
+    | 0 => true
+    | fuel + 1 =>
+      if i > d / 2 then true else
+      let xi' := ppowmod B f xi 200 B.q          -- X^(q^i) mod f
+      let g := pgcd B (psub B xi' (pmod B x f)) f
+      if (pnorm g).length > 1 then false else go fuel (i + 1) xi'
+  go (d + 1) 1 (pmod B x f)
+
 end Givaro.Spec.GFqExt
